@@ -77,6 +77,9 @@ const (
 	OpFpToUBV
 	OpFpFromBits // reinterpret BV as FP
 	OpFpTrunc    // roundToIntegral RTZ
+	OpFpFloor    // roundToIntegral RTN
+	OpFpCeil     // roundToIntegral RTP
+	OpFpRound    // roundToIntegral RNA (math.Round)
 	OpFmod       // uninterpreted fmod(a,b) on F64
 )
 
@@ -599,6 +602,17 @@ func FpTrunc(a *Term) *Term {
 	return mk(OpFpTrunc, a.Sort, a.W, a)
 }
 
+func fpRTI(op Op, f func(float64) float64, a *Term) *Term {
+	fpSort(a)
+	if a.IsConst() {
+		return fpConstOf(a.Sort, f(fpVal(a)))
+	}
+	return mk(op, a.Sort, a.W, a)
+}
+func FpFloor(a *Term) *Term { return fpRTI(OpFpFloor, math.Floor, a) }
+func FpCeil(a *Term) *Term  { return fpRTI(OpFpCeil, math.Ceil, a) }
+func FpRound(a *Term) *Term { return fpRTI(OpFpRound, math.Round, a) }
+
 func Fmod(a, b *Term) *Term {
 	if a.IsConst() && b.IsConst() {
 		return F64Const(math.Mod(fpVal(a), fpVal(b)))
@@ -899,6 +913,12 @@ func eval1(t *Term, m Model, memo map[*Term]uint64) uint64 {
 		return uint64(tr) & mask(t.W)
 	case OpFpTrunc:
 		return fpBits(t.Sort, math.Trunc(fpOf(t.Sort, ev(0))))
+	case OpFpFloor:
+		return fpBits(t.Sort, math.Floor(fpOf(t.Sort, ev(0))))
+	case OpFpCeil:
+		return fpBits(t.Sort, math.Ceil(fpOf(t.Sort, ev(0))))
+	case OpFpRound:
+		return fpBits(t.Sort, math.Round(fpOf(t.Sort, ev(0))))
 	case OpFmod:
 		return fpBits(SF64, math.Mod(fpOf(SF64, ev(0)), fpOf(SF64, ev(1))))
 	}
@@ -1058,6 +1078,12 @@ func (t *Term) SMT() string {
 		s = fmt.Sprintf("((_ fp.to_ubv %d) RTZ %s)", t.W, t.Args[0].SMT())
 	case OpFpTrunc:
 		s = fmt.Sprintf("(fp.roundToIntegral RTZ %s)", t.Args[0].SMT())
+	case OpFpFloor:
+		s = fmt.Sprintf("(fp.roundToIntegral RTN %s)", t.Args[0].SMT())
+	case OpFpCeil:
+		s = fmt.Sprintf("(fp.roundToIntegral RTP %s)", t.Args[0].SMT())
+	case OpFpRound:
+		s = fmt.Sprintf("(fp.roundToIntegral RNA %s)", t.Args[0].SMT())
 	default:
 		n, ok := opNames[t.Op]
 		if !ok {
